@@ -89,6 +89,7 @@ type Path struct {
 	nViol          int
 	chooseN        int // number of non-forced choose decisions (shape)
 	stdout         value
+	goN            int // goroutines started by the code under test on this path
 	sigpipeIgnored bool
 	tz             int64 // local time zone offset of this path (seconds east of UTC)
 	tzSet          bool
